@@ -1,21 +1,41 @@
 import FalconModel.RespHeaders
 open Hd
 
+/-! Line-protocol driver for the response-header model (C15). All names / values / cookie lines are hex (latin-1 bytes),
+    `-` is the empty string.
+      new | set N V | append N V | delete N | get N | setmany N:V,N:V,… (or -) | pset K V | pdel K | cookie NAME LINE | uncookie NAME LINE | emit -/
 def cfg : Cfg String String := { norm := fun s => s.map Char.toLower, cookie := "set-cookie" }
-def showKV (l : List (String × String)) : String := ";".intercalate (l.map fun (k, v) => k ++ "=" ++ v)
+
+def hexVal (c : Char) : Nat :=
+  if '0' ≤ c ∧ c ≤ '9' then c.toNat - 48 else if 'a' ≤ c ∧ c ≤ 'f' then c.toNat - 87 else if 'A' ≤ c ∧ c ≤ 'F' then c.toNat - 55 else 0
+def unhexL : List Char → List Char
+  | a :: b :: rest => Char.ofNat (hexVal a * 16 + hexVal b) :: unhexL rest
+  | _ => []
+def unhex (s : String) : String := if s == "-" then "" else String.ofList (unhexL s.toList)
+def hexDigit (n : Nat) : Char := if n < 10 then Char.ofNat (48 + n) else Char.ofNat (87 + n)
+def hex (s : String) : String :=
+  if s.isEmpty then "-" else String.ofList (s.toList.flatMap fun c => [hexDigit (c.toNat / 16 % 16), hexDigit (c.toNat % 16)])
+
+def showKV (l : List (String × String)) : String := ";".intercalate (l.map fun (k, v) => hex k ++ "=" ++ hex v)
 
 def step (r : Resp String) (line : String) : Resp String × String :=
   match line.trimAscii.toString.splitOn " " with
   | ["new"] => ({}, "ok")
-  | ["set", n, v] => match setHeader cfg r n v with | some r' => (r', "ok") | none => (r, "err")
-  | ["append", n, v] => (appendHeader cfg r n v, "ok")
-  | ["delete", n] => match deleteHeader cfg r n with | some r' => (r', "ok") | none => (r, "err")
-  | ["get", n] => match getHeader cfg r n with | some (some v) => (r, "val " ++ v) | some none => (r, "none") | none => (r, "err")
+  | ["set", n, v] => match setHeader cfg r (unhex n) (unhex v) with | some r' => (r', "ok") | none => (r, "err")
+  | ["append", n, v] => (appendHeader cfg r (unhex n) (unhex v), "ok")
+  | ["delete", n] => match deleteHeader cfg r (unhex n) with | some r' => (r', "ok") | none => (r, "err")
+  | ["get", n] => match getHeader cfg r (unhex n) with | some (some v) => (r, "val " ++ hex v) | some none => (r, "none") | none => (r, "err")
   | ["setmany", items] =>
-    let kvs := (items.splitOn ",").filterMap fun it => match it.splitOn ":" with | [k, v] => some (k, v) | _ => none
+    let kvs := if items == "-" then [] else (items.splitOn ",").filterMap fun it => match it.splitOn ":" with | [k, v] => some (unhex k, unhex v) | _ => none
     let (r', ok) := setHeaders cfg r kvs
     (r', if ok then "ok" else "err")
-  | ["emit"] => (r, "hdrs " ++ showKV (emit r))
+  | ["pset", k, v] => (applyOp cfg r (.propSet (unhex k) (unhex v)), "ok")
+  | ["pdel", k] =>
+    -- `del resp.<prop>` raises KeyError when the header is absent; assigning None never raises (the harness sends pdel only for the latter or a present header)
+    (applyOp cfg r (.propDel (unhex k)), "ok")
+  | ["cookie", n, l] => (setCookie r (unhex n) (unhex l), "ok")
+  | ["uncookie", n, l] => (unsetCookie r (unhex n) (unhex l), "ok")
+  | ["emit"] => (r, "hdrs " ++ showKV (emitAll cfg r))
   | _ => (r, "bad-op")
 
 partial def loop (h : IO.FS.Stream) (r : Resp String) : IO Unit := do
